@@ -85,20 +85,28 @@ reg("C07",
     level_note="Trusted: the hand-written tokenizer/decoder; http::Uri for re-parsing. The macro client's own copy of the encode set (literals and query keys at expansion time) is covered by the loopback part when built.")
 
 reg("C06",
-    packages=["httpdirect"], bin="httpdirect", level="fault_enumeration", engine="E3a httpdirect",
+    packages=["httpdirect", "httploop"], level="fault_enumeration", engine="E3a httpdirect + E3b httploop",
+    parts=[
+        {"packages": ["httpdirect"], "bin": "httpdirect"},
+        {"packages": ["httploop"], "bin": "httploop"},
+    ],
     technique="deviation-bounded exhaustive exploration of body-stream histories (chunk splits, empty chunks, pending polls, stream errors) x bodies x Content-Types x size limits on the real request deserializers, judged by a reference acceptance predicate",
     design_ref="DESIGN.md §3 C06, §2.4",
     explanation="per parameter type: valid documents, every truncation, 16 trailers, doubled documents, all JSON symbol strings up to the bound, Smile renderings; every stream history within the deviation bound plus uniform 1/2/3-byte chunkings; every Content-Type of an 11-value alphabet; limits 0/1/4/8/16/default; StdRequestDeserializer, OptionalRequestDeserializer, FromRequestDeserializer, BinaryRequestDeserializer; blocking and async",
     level_text="Fault enumeration over environment answers: every history of the body stream with at most k deviations from 'whole body in one chunk' (and every position of a stream error) is executed on the real deserializers; acceptance is compared with an independent 'exactly one document within the limit' predicate.",
-    level_note="Trusted: plain serde_json/serde_smile as judges of 'one well-formed document'; conjure-serde's server deserializer for the value (C01/C02/C05's business). Generated endpoints with the size-limit tag and handler invocation counts are covered by the loopback part when built.")
+    level_note="Trusted: plain serde_json/serde_smile as judges of 'one well-formed document'; conjure-serde's server deserializer for the value (C01/C02/C05's business). Part 1 (loopback) sends raw requests to the generated endpoints (incl. the size-limit tag) and checks the handler runs exactly once iff the body is valid.")
 
 reg("C18",
-    packages=["httpdirect"], bin="httpdirect", level="fault_enumeration", engine="E3a httpdirect",
+    packages=["httpdirect", "httploop"], level="fault_enumeration", engine="E3a httpdirect + E3b httploop",
+    parts=[
+        {"packages": ["httpdirect"], "bin": "httpdirect"},
+        {"packages": ["httploop"], "bin": "httploop"},
+    ],
     technique="deviation-bounded exhaustive exploration of response-stream histories x status x Content-Type x body on the real client response decoders (blocking and async), judged by a reference 'complete, correctly typed document' predicate",
     design_ref="DESIGN.md §3 C18, §2.4",
     explanation="per return class (value, optional, list, set, map, unit, binary, optional binary): valid documents with unknown fields, every truncation, trailers, doubled documents; statuses 200/201/204; 11 Content-Type situations; every stream history within the deviation bound plus uniform chunkings; decode_*_response and ConjureResponseDeserializer; blocking and async verdicts must agree",
     level_text="Fault enumeration over environment answers: every history of the response stream with at most k deviations (including a stream error at every position) is executed on the real decoders; a value may only come from a 204 (empty value) or from a complete document under the requested Content-Type.",
-    level_note="Trusted: conjure-serde's client deserializer (client_from_slice) as the reference for 'one well-formed document of the return type'. Content-Types that are the requested type in another spelling are treated as unclear (error or the correct value accepted). Generated and macro client methods end-to-end are covered by the loopback part when built.")
+    level_note="Trusted: conjure-serde's client deserializer (client_from_slice) as the reference for 'one well-formed document of the return type'. Content-Types that are the requested type in another spelling are treated as unclear (error or the correct value accepted). Part 1 (loopback) drives the generated blocking and async client methods over a scripted transport.")
 
 reg("C04",
     packages=["httploop"], bin="httploop", level="exploration", engine="E3b httploop",
